@@ -397,6 +397,14 @@ class BroydenSolver(NonlinearSolver):
 
         delta_xm = -Gm.dot(fxm)
 
+        if self._full_inverse:
+            # The outputs of independent variable components are part of the full-model state
+            # vector. Their rows of the inverse jacobian are zero only up to the round-off of the
+            # inversion, which a large residual turns into a visible change of the user's inputs.
+            mask = self._get_indep_mask()
+            if mask.size == delta_xm.shape[-1]:
+                delta_xm[..., mask] = 0.0
+
         if self.linesearch:
             self._solver_info.append_subsolver()
 
@@ -450,6 +458,24 @@ class BroydenSolver(NonlinearSolver):
         self.fxm = fxm
         self.xm = xm
         self.Gm = Gm
+
+    def _get_indep_mask(self):
+        """
+        Return the entries of the full-model state vector that are independent variables.
+
+        Returns
+        -------
+        ndarray
+            Boolean array, True where the entry belongs to an output tagged 'openmdao:indep_var'.
+        """
+        system = self._system()
+        outputs = system._outputs
+        mask = np.zeros(len(outputs), dtype=bool)
+        for name, meta in system._var_abs2meta['output'].items():
+            if 'openmdao:indep_var' in meta['tags']:
+                start, stop = outputs.get_range(name)
+                mask[start:stop] = True
+        return mask
 
     def _update_inverse_jacobian(self):
         """
